@@ -19,6 +19,7 @@ CONSTANTS
   DevRateKeyHeader = TRUE
   DevRefundOnRefusal = FALSE
   RateBad = FALSE
+  DevTrimValues = FALSE
   DevRawNewlines = FALSE
 INVARIANTS C28_Rate
 VIEW View
